@@ -110,7 +110,14 @@ def body(ctx):
     events = project(events)
     ctx.log("raw events: %d, distinct observations: %d" % (nraw, len(events)))
     ctx.cov["calls_observed"] = nraw
-    lanes.validate(ctx, "T_Loops.tla", events, "c14", plan_lines=plan)
+    def corrupt(e, rng):   # binding probe: an observation with 1000 more iterations of one instrumented loop must be rejected
+        if e["k"] != "lp":
+            return None
+        c = dict(e)
+        c["ticks"] = list(e["ticks"])
+        c["ticks"][rng.randrange(1, 8)] += 1000
+        return c
+    lanes.validate(ctx, "T_Loops.tla", events, "c14", plan_lines=plan, corrupt=corrupt)
     ctx.cov["evaluations"] = max(ctx.cov["evaluations"], nraw)
     return dict(exhaustive=False,
                 rule="every unary elementary function (+ pow/atan2/hypot/fmod/remainder/fdim, ipow, sincos) for float and double on 22 architectures + scalar overloads, arguments from the "
